@@ -4,7 +4,7 @@ from common import *
 import pipe
 from props import c03
 
-RULE = ("a pool of reactions drawn from the corpus run (one third MCS-stage, one third rule-based, one third input-balanced/declined) "
+RULE = ("a pool of reactions drawn from the corpus run (one third MCS-stage, one third rule-based, one third input-balanced/declined) plus fixed neighbour-sensitive rows (no common substructure at all, both-side imbalance, redox-curated, input-balanced) "
         "is processed (a) each alone, (b) all together in several random orders, (c) through the public batch_size API in random "
         "partitions, (d) with worker counts > 1 (joblib process pools); all public columns of every row are compared across contexts "
         "and the merged statistics with the sum of the single-row statistics; (a) and (b) are replayed through the model inside Coq. "
@@ -41,6 +41,9 @@ def run(ctx):
     rx = []
     for k in pool:
         rx += rng.sample(pool[k], min(n, len(pool[k])))
+    # rows that need a particular neighbour to expose an index mix-up: no common substructure at all (dropped by
+    # get_largest_condition), both-side imbalance with surplus O (in-place water step), input-balanced, redox-curated
+    rx += ["CC>>O", "CCCCCC>>P", "c1ccccc1>>N", "CCOC(=O)C>>CC(=O)O", "CC(=O)O>>CCO", "CCO.CC(=O)O>>CC(=O)OCC.O", "CC(=O)C>>CC(O)C", "CCO>>CCO"]
     rx = list(dict.fromkeys(rx))
     ctx.count("pool", "reactions", len(rx))
     nperm = 2 if ctx.quick() else 6
